@@ -1,5 +1,5 @@
 # C02 — ANP > NetworkPolicy > BANP precedence and rule order are respected.
-from . import c01
+from . import c01, c03
 from .lib import core, gen, listcorr
 
 
@@ -12,9 +12,10 @@ def main(tier):
     run.cov['rule'] = ('random worlds as for C01 plus 0-4 AdminNetworkPolicies (distinct priorities from {0,1,5,10,50,999,1000}, subjects by namespaces or pods, '
                        'ordered Allow/Deny/Pass rules with portNumber/portRange/namedPort or no ports, overlapping boundary port sets) and an optional BANP; documents shuffled '
                        '(ANPs not in priority order); analysed by the real `list` and by the Gallina model; whole report compared; '
-                       'non-trivial = analysis succeeded, at least one ANP, at least one partial connection; distinct by scenario hash')
+                       'non-trivial = analysis succeeded, at least one ANP, at least one partial connection; distinct by scenario hash; plus the eval correspondence of C03 '
+                       '(CheckIfAllowed on both engine constructions vs the rule-walker mirror and vs the real list) on worlds that always carry ANPs')
     run.stage_proofs()
-    b = core.build_go(['verifapi'], run.log)
+    b = core.build_go(['verifapi', 'k8snetpolicy'], run.log)
     if not b['verifapi'][0]:
         run.proof_ok = False
         run.proof_notes.append('harness verifapi does not build against this tree: ' + b['verifapi'][1][-600:])
@@ -34,6 +35,9 @@ def main(tier):
             k += shard
     finally:
         h.close()
+    # the same precedence through the single-connection path (CheckIfAllowed / `k8snetpolicy eval`), which does not use connection sets
+    if len(run.violations) < 3:
+        c03.eval_part(run, tier, b, 45 if tier == 'quick' else 600, 8 if tier == 'quick' else 60, anp_always=True)
     return run.finish()
 
 
